@@ -149,7 +149,7 @@ Next ==
     /\ l' = l + 1
     /\ LET ev == TraceLog[l]
        IN  /\ IF ev.e = "Tab" /\ Mode \in {"rows", "full"}
-              THEN IF ev.t \in DOMAIN TableDesc THEN CheckRow(ev) ELSE Msg(ev, "INFRA", "unknown-table", ev.t)
+              THEN IF ev.t \in DOMAIN TableDesc THEN CheckRow(ev) = TRUE ELSE Msg(ev, "INFRA", "unknown-table", ev.t)
               ELSE TRUE
            /\ IF Mode \in {"cover", "full"} THEN Cover(ev) ELSE UNCHANGED seen
 
